@@ -740,3 +740,16 @@ package types
 //@   pure
 //@   noalloc
 //@   ensures result == ite(ps == nil, 0, ps.total)
+
+// a peer's claim of a +2/3 majority for a block id (C15): the first claim of a peer makes the block's tally peer-claimed (so that
+// conflicting votes for it are admitted and counted), whether or not the block was already being tallied; later claims of the
+// same peer change nothing
+//@ func (*VoteSet).SetPeerMaj23
+//@   props C15
+//@   requires voteSet != nil
+//@   invariant-assumed wfValSet(voteSet.valSet) && voteSet.votesByBlock != nil && voteSet.peerMaj23s != nil && forall(k, String, has(voteSet.votesByBlock, k) ==> voteSet.votesByBlock[k] != nil)
+//@   nosafety
+//@   let key = keyOf(blockID)
+//@   ensures [first-claim-marks-the-block-peer-claimed] !old(has(voteSet.peerMaj23s, peerID)) ==> has(voteSet.votesByBlock, key) && voteSet.votesByBlock[key].peerMaj23
+//@   ensures [repeated-claim-changes-nothing] old(has(voteSet.peerMaj23s, peerID)) ==> voteSet.votesByBlock == old(voteSet.votesByBlock) && (old(has(voteSet.votesByBlock, key)) ==> voteSet.votesByBlock[key].peerMaj23 == old(voteSet.votesByBlock[key].peerMaj23))
+//@   ensures [tallies-are-kept] old(has(voteSet.votesByBlock, key)) ==> voteSet.votesByBlock[key] == old(voteSet.votesByBlock[key]) && voteSet.votesByBlock[key].sum == old(voteSet.votesByBlock[key].sum)
